@@ -825,10 +825,12 @@ package connect
 //@ trusted func newCompressionPool$1.newDecompressor() res
 //@ trusted func newCompressionPool$2.newCompressor() res
 //@ func newCompressionPool$1() res
+//@   anchor "return newDecompressor()"
 //@   tags C08, C07, C06
 //@   requires deref(newDecompressor) != nil
 //@   assigns everything
 //@ func newCompressionPool$2() res
+//@   anchor "return newCompressor()"
 //@   tags C08, C07, C06
 //@   requires deref(newCompressor) != nil
 //@   assigns everything
@@ -900,6 +902,7 @@ package connect
 //@ trusted func AnyRequest.Header(r) res
 
 //@ func (*recoverHandlerInterceptor).WrapStreamingHandler$1(ctx, conn) retErr
+//@   anchor "return func(ctx context.Context, conn StreamingHandlerConn) (retErr error)"
 //@   tags C19, C12
 //@   assert@call(field:recoverHandlerInterceptor.handle#1): arg0 == ctx && arg1.Procedure == callres("StreamingHandlerConn.Spec", 1).Procedure && arg1.StreamType == callres("StreamingHandlerConn.Spec", 1).StreamType && arg1.IsClient == callres("StreamingHandlerConn.Spec", 1).IsClient && arg2 == callres("StreamingHandlerConn.RequestHeader", 1)   // label: the-recovery-function-sees-the-call's-spec-and-request-headers   // tags: C12, C19
 //@   requires conn != nil && deref(i) != nil && deref(next) != nil && deref(i).handle != nil
@@ -909,6 +912,7 @@ package connect
 //@   panicensures panicked("(*recoverHandlerInterceptor).WrapStreamingHandler$1.next", 1) && panicvalue == http.ErrAbortHandler && panicval("(*recoverHandlerInterceptor).WrapStreamingHandler$1.next", 1) == http.ErrAbortHandler && handleCalls() == old(handleCalls())   // label: abort-sentinel-is-re-raised-untouched
 
 //@ func (*recoverHandlerInterceptor).WrapUnary$1(ctx, req) (res, retErr)
+//@   anchor "return func(ctx context.Context, req AnyRequest)"
 //@   tags C19, C12
 //@   assert@call(field:recoverHandlerInterceptor.handle#1): arg0 == ctx && arg1.Procedure == callres("AnyRequest.Spec", 1).Procedure && arg1.StreamType == callres("AnyRequest.Spec", 1).StreamType && arg1.IsClient == callres("AnyRequest.Spec", 1).IsClient && arg2 == callres("AnyRequest.Header", 1)   // label: the-recovery-function-sees-the-call's-spec-and-request-headers   // tags: C12, C19
 //@   requires req != nil && deref(i) != nil && deref(next) != nil && deref(i).handle != nil
@@ -1523,6 +1527,7 @@ package connect
 //@   assigns d.onRequestSend
 //@   ensures d.onRequestSend == onRequestSend
 //@ func (*duplexHTTPCall).ensureRequestMade$1()
+//@   anchor "d.sendRequestOnce.Do(func() {"
 //@   tags C10
 //@   requires deref(d) != nil && deref(d).request != nil && deref(d).request.Header != nil
 //@   assigns mapof(deref(d).request.Header), mapvals(deref(d).request.Header)
@@ -1546,6 +1551,7 @@ package connect
 //@   assert@call((*duplexHTTPCall).SetOnRequestSend#1): arg0 == callres("newDuplexHTTPCall", 1)   // label: the-send-hook-is-this-call's
 //@   ensures called("(*duplexHTTPCall).SetOnRequestSend", 1)   // label: the-timeout-is-computed-again-when-the-request-is-sent   // tags: C10
 //@ func (*connectClient).NewConn$1(header)
+//@   anchor "duplexCall.SetOnRequestSend(func(header http.Header) {"
 //@   tags C10
 //@   requires header != nil
 //@   requires deref(ctx) != nil
@@ -1572,6 +1578,7 @@ package connect
 //@   assert@call((*duplexHTTPCall).SetOnRequestSend#1): arg0 == callres("newDuplexHTTPCall", 1)   // label: the-send-hook-is-this-call's
 //@   ensures called("(*duplexHTTPCall).SetOnRequestSend", 1)   // label: the-timeout-is-computed-again-when-the-request-is-sent   // tags: C10
 //@ func (*grpcClient).NewConn$1(header)
+//@   anchor "duplexCall.SetOnRequestSend(func(header http.Header) {"
 //@   tags C10
 //@   requires header != nil
 //@   requires deref(ctx) != nil
@@ -1661,6 +1668,7 @@ package connect
 //@ trusted func NewServerStreamHandler$1.implementation(ctx, request, stream) err
 //@   assigns everything
 //@ func NewServerStreamHandler$1(ctx, conn) err
+//@   anchor "func(ctx context.Context, conn StreamingHandlerConn) error {"
 //@   tags C12, C11, C07
 //@   assert@call(NewServerStreamHandler$1.implementation#1): ended(conn)   // label: user-code-runs-only-when-the-request-is-exactly-one-message   // tags: C07
 //@   requires conn != nil && deref(implementation) != nil
@@ -1679,6 +1687,7 @@ package connect
 //@ trusted func AnyResponse.Any(r) res
 //@   pure
 //@ func NewUnaryHandler$2(ctx, conn) err
+//@   anchor "implementation := func(ctx context.Context, conn StreamingHandlerConn) error {"
 //@   tags C12, C11, C07
 //@   assert@call(NewUnaryHandler$2.untyped#1): ended(conn)   // label: user-code-runs-only-when-the-request-is-exactly-one-message   // tags: C07
 //@   requires conn != nil && deref(untyped) != nil
@@ -1692,6 +1701,7 @@ package connect
 //@   assigns everything
 //@   ensures err == nil ==> res != nil
 //@ func NewClientStreamHandler$1(ctx, conn) err
+//@   anchor "func(ctx context.Context, conn StreamingHandlerConn) error {"
 //@   tags C12, C11
 //@   requires conn != nil && deref(implementation) != nil
 //@   assigns everything
@@ -1703,6 +1713,7 @@ package connect
 //@ trusted func NewBidiStreamHandler$1.implementation(ctx, stream) err
 //@   assigns everything
 //@ func NewBidiStreamHandler$1(ctx, conn) err
+//@   anchor "func(ctx context.Context, conn StreamingHandlerConn) error {"
 //@   tags C12
 //@   requires conn != nil && deref(implementation) != nil
 //@   assigns everything
@@ -1734,6 +1745,7 @@ package connect
 //@   ensures |old(rest(reader))| > 4194304 ==> !res                                                        // label: more-than-the-limit-left-is-never-reported-as-drained-however-the-reader-reports-its-end
 //@   ensures res ==> err == nil   // label: drained-means-no-error
 //@ func (*grpcClient).NewConn$3(u, call) (res, err)
+//@   anchor "func(_ *grpcUnmarshaler, call *duplexHTTPCall)"
 //@   tags C03, C04, C06, C15
 //@   requires call != nil
 //@   assigns rest(call)
@@ -1834,6 +1846,7 @@ package connect
 
 // the unary call proper (innermost UnaryFunc, wrapped by the interceptors)
 //@ func NewClient$1(ctx, request) (res, err)
+//@   anchor "unaryFunc := UnaryFunc(func(ctx"
 //@   tags C12, C02, C04
 //@   requires request != nil && deref(protocolClient) != nil
 //@   assigns everything
@@ -1846,6 +1859,7 @@ package connect
 //@ trusted func NewClient$2.unaryFunc(ctx, request) (res, err)
 //@   assigns everything
 //@ func NewClient$2(ctx, request) (res, err)
+//@   anchor "client.callUnary = func(ctx"
 //@   tags C12, C16
 //@   requires request != nil && deref(protocolClient) != nil && deref(unaryFunc) != nil
 //@   assigns everything
@@ -1866,6 +1880,7 @@ package connect
 //@   ensures called("StreamingClientConn.Send", 1) && callres("StreamingClientConn.Send", 1) != nil && !Is(callres("StreamingClientConn.Send", 1), io.EOF) ==> err == callres("StreamingClientConn.Send", 1) && res == nil   // label: a-client-side-send-failure-is-returned
 
 //@ func (*Client).newConn$1(ctx, spec) res
+//@   anchor "newConn := func(ctx context.Context, spec Spec)"
 //@   tags C12, C11, C10, C15
 //@   requires deref(c) != nil && deref(c).protocolClient != nil
 //@   assigns everything
